@@ -1,0 +1,14 @@
+//go:build verif
+
+// Contracts for the deductive verifier in /verif (govc); comments only.
+package log
+
+//@ func ElideError(err) (s)
+//@   serves C20
+//@   requires err != nil
+//@   ensures [C20:scrubbed_error] !unsafeLogging && NETERR(tag(err), payload(err)) ==> CLEAN(s)
+
+//@ func ElideAddr(addrStr) (s)
+//@   serves C20
+//@   ensures [C20:scrubbed_addr] !unsafeLogging ==> CLEAN(s)
+//@   ensures [C20:unsafe_verbatim] unsafeLogging ==> s == addrStr
